@@ -985,3 +985,21 @@ const (
 	CodeInternal           = 13
 	CodeUnavailable        = 14
 )
+
+// GuardedByTrueResult reports whether `at` is only reachable through an edge
+// on which boolean result #idx of call is true.
+func GuardedByTrueResult(at ssa.Instruction, call ssa.Value, idx int) bool {
+	for _, e := range GuardingEdges(at) {
+		cond := e.If.Cond
+		neg := false
+		if u, ok := cond.(*ssa.UnOp); ok && u.Op == token.NOT {
+			cond, neg = u.X, true
+		}
+		for _, s := range ValuesAt(cond) {
+			if IsExtractOf(s, call, idx) && e.Branch != neg {
+				return true
+			}
+		}
+	}
+	return false
+}
